@@ -46,9 +46,11 @@ inline uint64_t from_value(const RegisterValue &v) {
 struct CbStore { RegisterArea *area; uint16_t *mem; uint32_t size; unsigned long reads = 0, writes = 0; };
 inline std::vector<CbStore> &cbstores() { static std::vector<CbStore> v; return v; }
 inline CbStore *find_store(const RegisterArea *a) { for (auto &s : cbstores()) if (s.area == a) return &s; return nullptr; }
+inline long &cb_read_faults() { static long n = -1; return n; }   // >= 0: that many reads still succeed, all later ones report an I/O error
 extern "C" inline RegisterAccess vp_cb_read(const RegisterArea *a, RegisterAtom *dst, RegisterOffset off, RegisterOffset n) {
     RegisterAccess rv = REG_ACCESS_RESULT_INIT;
     CbStore *s = find_store(a);
+    if (cb_read_faults() >= 0) { if (cb_read_faults() == 0) { rv.code = REG_ACCESS_IO_ERROR; rv.address = a->base + off; return rv; } cb_read_faults()--; }   // the device behind the area stops answering
     s->reads++;
     memcpy(dst, s->mem + off, n * sizeof(RegisterAtom));   // exact-size block: an out-of-range request is an ASan report
     return rv;
@@ -112,6 +114,23 @@ struct Live {
     Live(const Live &) = delete;
     ~Live() { for (auto *m : storage) free(m); for (auto *m : decoys) free(m); free(areas); free(entries); cbstores().clear(); }
     RegisterInit init() { return register_init(&t); }
+    // A boot that needs two attempts, on the same table object: the definition is wrong for the first register_init (mode 1: the last register lies
+    // behind all areas; mode 2: register k's default is refused by its validator), gets corrected, and register_init runs again. Returns the result
+    // of the second attempt; *first receives the first one. What was configured on the table before (byte order) is not touched in between.
+    RegisterInit init_retry(int mode, size_t k, RegisterInit *first = nullptr) {
+        size_t ne = d->regs.size();
+        RegisterInit f; memset(&f, 0, sizeof f); f.code = REG_INIT_SUCCESS;
+        if (ne && mode == 1) {
+            uint64_t end = 0; for (auto &a : d->areas) end = std::max<uint64_t>(end, (uint64_t)a.base + a.size);
+            if (end + 16 < 0xffffffffull) { RegisterAddress keep = entries[ne - 1].address; entries[ne - 1].address = (RegisterAddress)(end + 5); f = register_init(&t); entries[ne - 1].address = keep; }
+        } else if (ne && mode == 2) {
+            RegisterEntry &e = entries[k % ne]; auto keep = e.check;
+            e.check.type = (RegisterValidatorType)rm::C_CB; e.check.arg.cb = (validatorFunction)+[](const RegisterEntry *, RegisterValue) { return false; };
+            f = register_init(&t); e.check = keep;
+        }
+        if (first) *first = f;
+        return register_init(&t);
+    }
     // compare all storage with the model; returns -1 or the first differing address
     long diff(const rm::Space &m) const {
         for (size_t i = 0; i < d->areas.size(); i++) for (uint32_t k = 0; k < d->areas[i].size; k++) if (storage[i][k] != m.mem[i][k]) return (long)(d->areas[i].base + k);
